@@ -959,11 +959,12 @@ Qed.
 Lemma step_inv s e : inv s -> ev_ok e -> let '(s', o) := step FIXED s e in inv s' /\ Forall out_ok o.
 Proof.
   intros I OK. unfold step. destruct (halted s); [split; [exact I|constructor]|].
-  destruct e as [n|c| |pid sz|]; cbn [fx_recv FIXED].
+  destruct e as [n|c| |pid sz| |pid sz]; cbn [fx_recv FIXED].
   - split; [exact I|constructor].
   - apply feed_inv; assumption.
   - pose proof (sync_inv s I) as SI. destruct (sync FIXED s) as [s1 o1]. destruct SI as (S1 & S2 & S3).
     destruct (halted s1); [auto|]. split; [|exact S2]. destruct S1; constructor; assumption.
+  - unfold device_pack. destruct (try_pack _ _ _ _) as [[q'|] t]; (split; [destruct I; constructor; assumption|repeat constructor]).
   - unfold device_pack. destruct (try_pack _ _ _ _) as [[q'|] t]; (split; [destruct I; constructor; assumption|repeat constructor]).
   - unfold device_pack. destruct (try_pack _ _ _ _) as [[q'|] t]; (split; [destruct I; constructor; assumption|repeat constructor]).
 Qed.
@@ -984,7 +985,7 @@ Proof. intros; unfold len, zeros. rewrite repeat_length. lia. Qed.
 
 Theorem C16_safe_thm : forall evs, Forall ev_ok evs -> Forall out_ok (run FIXED evs).
 Proof.
-  intros evs OK. unfold run. destruct evs as [|e r]; [constructor|]. destruct e as [n|c| |pid sz|]; [|constructor..].
+  intros evs OK. unfold run. destruct evs as [|e r]; [constructor|]. destruct e as [n|c| |pid sz| |pid sz]; [|constructor..].
   inversion OK; subst. unfold boot.
   assert (I0 : inv {| buf := []; stale := zeros RECVBUF;
                mq := [{| ect := CT_CONNECT; epid := 0; esz := n; esent := false; eacked := false |}]; halted := false |}).
@@ -1463,4 +1464,161 @@ Proof.
       apply negb_true_iff, negb_false_iff in AN. unfold slog. cbn [filter]. rewrite AN. cbn [map]. unfold sent_out, new_entry. cbn [ect epid].
       rewrite N1, N2. reflexivity.
     + destruct nw; [reflexivity|discriminate].
+Qed.
+
+(* ------------------------------------------------------------------------------------------ *)
+(* acknowledgement of a QoS 1 PUBLISH the device sent *)
+Lemma ack_first_some p q : existsb p q = true -> exists q', ack_first p q = Some q'.
+Proof.
+  induction q as [|e q IH]; intros H; cbn [existsb ack_first] in *; [discriminate|].
+  destruct (p e); [eauto|]. cbn [orb] in H. destruct (IH H) as [q' ->]. eauto.
+Qed.
+
+Lemma unpack_puback pid rest : 0 <= pid < 65536 ->
+  unpack FIXED (64 :: 2 :: pid / 256 :: pid mod 256 :: rest) = UOk (RPubxxx CT_PUBACK pid) 4.
+Proof.
+  intros H. pose proof (cf_recvbuf_lo consts_ok) as RL.
+  change (64 :: 2 :: pid / 256 :: pid mod 256 :: rest) with ((4 * 16 + 0) :: enc_rl 2 ++ (pid / 256 :: pid mod 256 :: rest)).
+  unfold unpack. rewrite unpack_header_enc by lia. unfold hfin. rewrite rule_table by lia.
+  change (spec_rule 4 0 =? 0) with true. cbv iota. change (len (enc_rl 2)) with 1. change (enc_rl 2) with [2]. cbn [app].
+  rewrite !len_cons. pose proof (len_nonneg rest).
+  replace (1 + (1 + (1 + (1 + len rest))) - (1 + 1) <? 2) with false by (symmetry; apply Z.ltb_ge; lia).
+  replace (RECVBUF <? 1 + 1 + 2) with false by (symmetry; apply Z.ltb_ge; lia). cbn [orb].
+  unfold_ct. change (4 =? 2) with false. change (4 =? 3) with false. change (4 =? 4) with true. cbn [orb]. change (2 =? 2) with true. cbn [negb].
+  f_equal. f_equal. unfold be16.
+  change (nthz (4 * 16 + 0 :: 2 :: pid / 256 :: pid mod 256 :: rest) (1 + 1)) with (pid / 256).
+  change (nthz (4 * 16 + 0 :: 2 :: pid / 256 :: pid mod 256 :: rest) (1 + 1 + 1)) with (pid mod 256).
+  pose proof (Z.div_mod pid 256 ltac:(lia)). lia.
+Qed.
+
+Theorem C16_puback_accepted_thm : forall q pid rest,
+  0 <= pid < 65536 -> bytes_ok rest -> existsb (matches CT_PUBLISH (Some pid)) q = true ->
+  exists q', ack_first (matches CT_PUBLISH (Some pid)) q = Some q' /\
+    let d := parse_stream q (64 :: 2 :: pid / 256 :: pid mod 256 :: rest) in
+    let d' := parse_stream q' rest in
+    d_out d = d_out d' /\ d_q d = d_q d' /\ d_rest d = d_rest d' /\ d_stop d = d_stop d' /\ d_tight d = d_tight d'.
+Proof.
+  intros q pid rest HP OK EX. destruct (ack_first_some _ _ EX) as [q' A]. exists q'. split; [exact A|]. cbv zeta.
+  unfold parse_stream. rewrite drain_S, (unpack_puback pid rest HP). cbn [handle]. rewrite Z.eqb_refl, A. cbv zeta.
+  rewrite !len_cons. pose proof (len_nonneg rest).
+  replace (1 + (1 + (1 + (1 + len rest))) <? 4) with false by (symmetry; apply Z.ltb_ge; lia).
+  change (drop 4 (64 :: 2 :: pid / 256 :: pid mod 256 :: rest)) with rest.
+  rewrite (drain_fuel (length (64 :: 2 :: pid / 256 :: pid mod 256 :: rest)) (S (length rest)) q' rest OK) by (cbn [length]; lia).
+  cbn [d_q d_rest d_out d_stop d_tight app orb]. auto.
+Qed.
+
+(* ------------------------------------------------------------------------------------------ *)
+(* when is the send queue compacted while receiving, and what does compaction do *)
+(* room for k more acknowledgements (4 bytes + one queue record each) *)
+Definition room (q : list entry) (k : Z) : Prop := (len q + 1 + k) * QSZ + used q + 4 * k <= SENDBUF.
+
+Lemma room_currsz q k : room q k -> 1 <= k -> 4 <= currsz q.
+Proof.
+  unfold room, currsz. intros R K. pose proof (cf_qsz consts_ok) as QP.
+  assert (k * QSZ >= QSZ) by nia.
+  destruct (SENDBUF - (len q + 1) * QSZ <=? used q) eqn:E; [apply Z.leb_le in E|apply Z.leb_gt in E]; nia.
+Qed.
+Lemma used_app a b : used (a ++ b) = used a + used b.
+Proof. induction a as [|e a IH]; [reflexivity|]. cbn [app used fold_right]. fold (used (a ++ b)). fold (used a). rewrite IH. lia. Qed.
+Lemma room_append q k ct pid : room q k -> room (q ++ [new_entry ct pid 4]) (k - 1).
+Proof. unfold room. rewrite len_app, used_app. change (len [new_entry ct pid 4]) with 1. change (used [new_entry ct pid 4]) with (4 + 0). nia. Qed.
+Lemma room_less q k k' : room q k -> 0 <= k' <= k -> room q k'.
+Proof. unfold room. pose proof (cf_qsz consts_ok). nia. Qed.
+Lemma ack_first_measure p q q' : ack_first p q = Some q' -> len q' = len q /\ used q' = used q.
+Proof.
+  revert q'. induction q as [|e q IH]; intros q' H; cbn [ack_first] in H; [discriminate|]. destruct (p e).
+  - inversion H; subst. rewrite !len_cons. cbn [used fold_right]. auto.
+  - destruct (ack_first p q) as [r|]; [|discriminate]. inversion H; subst. destruct (IH r eq_refl) as [A B].
+    rewrite !len_cons, A. cbn [used fold_right]. fold (used r). fold (used q). rewrite B. auto.
+Qed.
+Lemma room_acked p q q' k : ack_first p q = Some q' -> room q k -> room q' k.
+Proof. intros A R. destruct (ack_first_measure _ _ _ A) as [L U]. unfold room in *. rewrite L, U. exact R. Qed.
+
+Lemma unpack_pubxxx_consumed b ct pid c : bytes_ok b -> unpack FIXED b = UOk (RPubxxx ct pid) c -> 4 <= c.
+Proof.
+  intros OK. unfold unpack. destruct (unpack_header b) as [|e|t fl rl h] eqn:H; try discriminate.
+  destruct (header_shape b t fl rl h OK H) as (Hh & _).
+  destruct (_ || _); [discriminate|].
+  destruct (t =? CT_CONNACK). { destruct (negb _); [discriminate|]. destruct (negb _); [discriminate|]. destruct (5 <? _); discriminate. }
+  destruct (t =? CT_PUBLISH).
+  { rewrite unpack_publish_fixed. cbv zeta. destruct (_ =? 3); [discriminate|]. destruct (rl <? 2); [discriminate|]. destruct (rl <? _); discriminate. }
+  destruct (_ || _ || _ || _). { destruct (negb _); [discriminate|]. intros Q; inversion Q; subst. lia. }
+  destruct (t =? CT_SUBACK). { destruct (rl <? 3); discriminate. }
+  destruct (t =? CT_UNSUBACK). { destruct (negb _); discriminate. }
+  destruct (t =? CT_PINGRESP). { destruct (_ && _); discriminate. }
+  discriminate.
+Qed.
+
+(* one packet: no compaction, and the measure (room for k acks, 4k >= bytes left) is kept *)
+Lemma handle_room b r c q k : bytes_ok b -> unpack FIXED b = UOk r c -> room q k -> 0 <= k -> len b <= 4 * k ->
+  match handle r q with (q', _, _, t) => t = false /\ exists k', room q' k' /\ 0 <= k' /\ len b - c <= 4 * k' end.
+Proof.
+  intros OK U R K L. destruct (unpack_consumed b r c OK U) as [C1 C2].
+  assert (STAY : forall q', room q' k -> exists k', room q' k' /\ 0 <= k' /\ len b - c <= 4 * k') by (intros; exists k; repeat split; auto; lia).
+  assert (APP : 4 <= c -> forall q1 ct pid, room q1 k ->
+          match try_pack ct pid 4 q1 with (Some q', t) => t = false /\ exists k', room q' k' /\ 0 <= k' /\ len b - c <= 4 * k' | (None, _) => False end).
+  { intros C4 q1 ct pid R1. assert (K1 : 1 <= k) by lia. rewrite try_pack_fits by (eapply room_currsz; eauto).
+    split; [reflexivity|]. exists (k - 1). split; [apply room_append; exact R1|]. lia. }
+  destruct r as [code|dup qos retain toff tlen poff plen pid|ct pid|pid code0|pid|]; cbn [handle].
+  - destruct (ack_first _ q) as [q'|] eqn:A; [|split; auto]. pose proof (room_acked _ _ _ _ A R).
+    destruct (code =? CONNACK_ACCEPTED); [|destruct (code =? CONNACK_ID_REJECTED)]; split; auto.
+  - destruct (unpack_publish_slices _ _ _ _ _ _ _ _ _ _ OK U) as (S1 & S2 & S3 & S4 & S5 & S6 & S7 & S8 & S9).
+    destruct (qos =? 1) eqn:Q1.
+    { apply Z.eqb_eq in Q1. destruct (S9 ltac:(lia)) as [P1 _]. specialize (APP ltac:(lia) q CT_PUBACK pid R).
+      destruct (try_pack CT_PUBACK pid 4 q) as [[q'|] t]; [exact APP|contradiction]. }
+    destruct (qos =? 2) eqn:Q2; [|split; auto].
+    apply Z.eqb_eq in Q2. destruct (S9 ltac:(lia)) as [P1 _].
+    destruct (existsb _ q); [split; auto|]. specialize (APP ltac:(lia) q CT_PUBREC pid R).
+    destruct (try_pack CT_PUBREC pid 4 q) as [[q'|] t]; [exact APP|contradiction].
+  - pose proof (unpack_pubxxx_consumed b ct pid c OK U) as C4.
+    destruct (ct =? CT_PUBACK). { destruct (ack_first _ q) as [q'|] eqn:A; split; auto. apply STAY. eapply room_acked; eauto. }
+    destruct (ct =? CT_PUBREC).
+    { destruct (existsb _ q); [split; auto|]. destruct (ack_first _ q) as [q'|] eqn:A; [|split; auto].
+      specialize (APP C4 q' CT_PUBREL pid (room_acked _ _ _ _ A R)). destruct (try_pack CT_PUBREL pid 4 q') as [[q''|] t]; [exact APP|contradiction]. }
+    destruct (ct =? CT_PUBREL).
+    { destruct (ack_first _ q) as [q'|] eqn:A; [|split; auto].
+      specialize (APP C4 q' CT_PUBCOMP pid (room_acked _ _ _ _ A R)). destruct (try_pack CT_PUBCOMP pid 4 q') as [[q''|] t]; [exact APP|contradiction]. }
+    destruct (ack_first _ q) as [q'|] eqn:A; split; auto. apply STAY. eapply room_acked; eauto.
+  - destruct (ack_first _ q) as [q'|] eqn:A; [|split; auto]. pose proof (room_acked _ _ _ _ A R).
+    destruct (code0 =? SUBACK_FAILURE); split; auto.
+  - destruct (ack_first _ q) as [q'|] eqn:A; split; auto. apply STAY. eapply room_acked; eauto.
+  - destruct (ack_first _ q) as [q'|] eqn:A; split; auto. apply STAY. eapply room_acked; eauto.
+Qed.
+
+Lemma drain_room f : forall q b k, bytes_ok b -> (length b < f)%nat -> room q k -> 0 <= k -> len b <= 4 * k ->
+  d_tight (drain f FIXED q b) = false.
+Proof.
+  induction f as [|n IH]; intros q b k OK LF R K L; [lia|]. rewrite drain_S.
+  destruct (unpack FIXED b) as [|e|r c] eqn:U; try reflexivity.
+  pose proof (handle_room b r c q k OK U R K L) as HR. destruct (unpack_consumed b r c OK U) as [C1 C2].
+  destruct (handle r q) as [[[q' dl] oe] t]. destruct HR as (-> & k' & R' & K' & L'). cbv zeta.
+  destruct (len b <? c); [reflexivity|]. destruct oe; [reflexivity|]. cbn [d_tight orb].
+  pose proof (length_drop_lt b c ltac:(lia)).
+  apply (IH q' (drop c b) k'); auto; [apply bytes_ok_drop; exact OK|lia|rewrite len_drop by lia; lia].
+Qed.
+
+(* static sufficient condition for the `d_tight = false` hypothesis of the segmentation theorems *)
+Theorem C16_room_no_compaction_thm : forall q stream k,
+  bytes_ok stream -> room q k -> 0 <= k -> len stream <= 4 * k -> d_tight (parse_stream q stream) = false.
+Proof. intros q stream k OK R K L. unfold parse_stream. apply (drain_room _ q stream k); auto. Qed.
+
+(* what a compaction is: MQTT_CLIENT_TRY_PACK did not find `sz` free bytes, mqtt_mq_clean dropped the completed messages
+   at the head of the queue, and the packet was queued behind the rest or the session ends with SEND_BUFFER_IS_FULL *)
+Theorem C16_compaction_thm : forall ct pid sz q r, try_pack ct pid sz q = (r, true) ->
+  currsz q < sz /\ ((r = Some (clean q ++ [new_entry ct pid sz]) /\ sz <= currsz (clean q)) \/ (r = None /\ currsz (clean q) < sz)).
+Proof.
+  intros ct pid sz q r. unfold try_pack. destruct (sz <=? currsz q) eqn:E1; [discriminate|]. apply Z.leb_gt in E1.
+  destruct (sz <=? currsz (clean q)) eqn:E2; intros H; inversion H; subst; split; auto; [apply Z.leb_le in E2|apply Z.leb_gt in E2]; auto.
+Qed.
+
+Theorem C16_segmentation_independent_room_thm : forall s segs1 segs2 k,
+  ready s -> Forall bytes_ok segs1 -> Forall bytes_ok segs2 -> concat segs1 = concat segs2 ->
+  room (mq s) k -> 0 <= k -> len (buf s ++ concat segs1) <= 4 * k ->
+  let r1 := run_from FIXED s (map Seg segs1) in let r2 := run_from FIXED s (map Seg segs2) in
+  rx_of (snd r1) = rx_of (snd r2) /\ qeq (mq (fst r1)) (mq (fst r2)) /\ halted (fst r1) = halted (fst r2) /\
+  (halted (fst r1) = false -> buf (fst r1) = buf (fst r2)).
+Proof.
+  intros s segs1 segs2 k R O1 O2 E RM K L. apply C16_segmentation_independent_thm; auto.
+  apply (C16_room_no_compaction_thm _ _ k); auto. apply bytes_ok_app. split; [apply R|].
+  clear - O1. induction O1; cbn [concat]; [constructor|apply bytes_ok_app; auto].
 Qed.
